@@ -46,8 +46,12 @@ type tcase struct {
 	// ExecModes (optional): the statement is prepared under Mode and then executed once per
 	// entry, the session's sql_mode being changed to that entry first (nil = one execute
 	// under Mode)
-	ExecModes []int  `json:"exec_modes,omitempty"`
-	Text      string `json:"text,omitempty"`
+	ExecModes []int `json:"exec_modes,omitempty"`
+	// Pre (optional): an execute of the same statement sent BEFORE the judged one(s), with
+	// its own values — typically one the proxy refuses (a non-finite float after a good first
+	// parameter). Whatever it does, the following executes must carry their own values only.
+	Pre  []param `json:"pre,omitempty"`
+	Text string  `json:"text,omitempty"`
 }
 
 type template struct {
@@ -583,7 +587,7 @@ func typeClass(p param) string {
 	return "int"
 }
 
-var nEval, nExecuted, nRefused, nHistories int64
+var nEval, nExecuted, nRefused, nHistories, nAfterRefused int64
 
 // historyClass names the shape of a case's sql_mode history (feature + coverage).
 func historyClass(c tcase) string {
@@ -637,12 +641,26 @@ func runCase(r *ev.Run, c tcase) {
 	}
 	hist := historyClass(c)
 	cur := c.Mode
+	if c.Pre != nil {
+		pc := c
+		pc.Params = c.Pre
+		ok, refused := runExecute(r, pc, rig, s, id, -1, cur, "pre_execute")
+		if !ok && !refused {
+			return // the pre-execute itself violated the property (reported)
+		}
+		if refused {
+			atomic.AddInt64(&nAfterRefused, 1)
+			hist = "after_refused_execute"
+		} else {
+			hist = "after_successful_execute"
+		}
+	}
 	for step, em := range execModes {
 		if em != cur {
 			setMode(em)
 			cur = em
 		}
-		if !runExecute(r, c, rig, s, id, step, em, hist) {
+		if ok, _ := runExecute(r, c, rig, s, id, step, em, hist); !ok {
 			return
 		}
 	}
@@ -653,7 +671,7 @@ func runCase(r *ev.Run, c tcase) {
 
 // runExecute performs execute number step (0-based) of the case under sql_mode index em and
 // judges the statement that reaches the backend; false = stop this history.
-func runExecute(r *ev.Run, c tcase, rig *sessrig.Rig, s *sessrig.Session, id uint32, step, em int, hist string) bool {
+func runExecute(r *ev.Run, c tcase, rig *sessrig.Rig, s *sessrig.Session, id uint32, step, em int, hist string) (ok bool, refused bool) {
 	tpl := templates[c.Tpl]
 	mode := modes[em]
 	before := len(rig.Backend.Log())
@@ -662,24 +680,24 @@ func runExecute(r *ev.Run, c tcase, rig *sessrig.Rig, s *sessrig.Session, id uin
 		// the session would be closed by Session.Run's recover: "the execute fails"
 		atomic.AddInt64(&nRefused, 1)
 		r.Distinct("refused", fmt.Sprint(p))
-		return false
+		return false, true
 	}
 	log := rig.Backend.Log()[before:]
 	if err := sessrig.RespErr(resp2); err != nil {
 		if len(log) != 0 {
 			r.Violation(ev.Witness{Summary: fmt.Sprintf("execute failed (%v) but the backend was sent %q", err, log[0].SQL),
 				Features: map[string]string{"kind": "failed_but_executed", "mode": mode, "history": hist}, Case: c})
-			return false
+			return false, false
 		}
 		atomic.AddInt64(&nRefused, 1)
 		r.Distinct("refused", err.Error())
-		return false
+		return false, true
 	}
 	atomic.AddInt64(&nExecuted, 1)
 	if len(log) != 1 {
 		r.Violation(ev.Witness{Summary: fmt.Sprintf("execute of %q reached the backend %d times", tpl.sql, len(log)),
 			Features: map[string]string{"kind": "backend_count", "mode": mode, "history": hist}, Case: c})
-		return false
+		return false, false
 	}
 	got := log[0].SQL
 	// the sql_mode the backend parses under is the one the proxy put on the connection for
@@ -688,7 +706,7 @@ func runExecute(r *ev.Run, c tcase, rig *sessrig.Rig, s *sessrig.Session, id uin
 	if want := mylex.ParseMode(mode); applied != want {
 		r.Violation(ev.Witness{Summary: fmt.Sprintf("session sql_mode %q but backend connection was given %q", mode, log[0].SQLMode),
 			Features: map[string]string{"kind": "sql_mode_not_applied", "mode": mode, "history": hist}, Case: c})
-		return false
+		return false, false
 	}
 	tt := mylex.Lex(tpl.sql, applied, false)
 	gt := mylex.Lex(got, applied, false)
@@ -723,7 +741,7 @@ func runExecute(r *ev.Run, c tcase, rig *sessrig.Rig, s *sessrig.Session, id uin
 					kind = "structure_changed"
 				}
 				fail(pi, kind, fmt.Sprintf("parameter %d: %s", pi, why))
-				return false
+				return false, false
 			}
 			gi += n
 			pi++
@@ -736,13 +754,13 @@ func runExecute(r *ev.Run, c tcase, rig *sessrig.Rig, s *sessrig.Session, id uin
 			}
 			// attribute to the parameter before this token
 			fail(pi-1, "structure_changed", fmt.Sprintf("after parameter %d the template continues with %q, the executed statement with %s", pi-1, t.Text, found))
-			return false
+			return false, false
 		}
 		gi++
 	}
 	if gi != len(gt) {
 		fail(pi-1, "structure_changed", fmt.Sprintf("%d extra token(s) after the end of the template, first %s %q", len(gt)-gi, gt[gi].Kind, gt[gi].Text))
-		return false
+		return false, false
 	}
 	// non-trivial: a bound value that needs quoting/escaping or a sign/exponent survived
 	for _, p := range c.Params {
@@ -751,7 +769,7 @@ func runExecute(r *ev.Run, c tcase, rig *sessrig.Rig, s *sessrig.Session, id uin
 			break
 		}
 	}
-	return true
+	return true, false
 }
 
 func modeNames(ms []int) []string {
@@ -853,6 +871,27 @@ func main() {
 		}
 	}
 	r.Set("mode_history_cases", len(cases)-nBefore)
+	// executes after a REFUSED execute of the same statement (added after seeded change c15-4):
+	// the first parameter of the refused packet is a good string, the second a non-finite
+	// float, so one slot has been bound when the proxy gives up; the next execute must carry
+	// its own two values. Every mode x 4 refused packets x every pair of mixed values.
+	nBeforePre := len(cases)
+	nonFinite := []param{
+		{T: mysql.TypeDouble, Raw: le(8, math.Float64bits(math.NaN())), Name: "double:NaN"},
+		{T: mysql.TypeFloat, Raw: le(4, uint64(math.Float32bits(float32(math.Inf(1))))), Name: "float:+Inf"},
+	}
+	for m := range modes {
+		for _, first := range []param{strParam(mysql.TypeVarString, []byte("STALE")), strParam(mysql.TypeBlob, []byte("ST'LE"))} {
+			for _, bad := range nonFinite {
+				for _, a := range mix {
+					for _, b := range mix {
+						cases = append(cases, tcase{Tpl: 1, Mode: m, Params: []param{a, b}, Pre: []param{first, bad}})
+					}
+				}
+			}
+		}
+	}
+	r.Set("after_refused_execute_cases", len(cases)-nBeforePre)
 	r.Set("universe", len(cases))
 	r.Set("bound", fmt.Sprintf("%d single-parameter values (all strings over a 10-byte alphabet up to length 3 as VAR_STRING and BLOB, lengths 0 and 300, every string-like type code, integer extremes of every width/signedness, floats incl. NaN/Inf, DATE/DATETIME/TIMESTAMP/TIME of every legal length, NULL three ways) x %d sql_modes; %d mixed values in 2-, 3- (x %d LIMIT values) and 4-parameter templates (4 parameters: <=%d deviations from the default); sql_mode histories: %d prepare modes x every sequence of 1..2 execute modes (SET sql_mode between PREPARE and EXECUTE and between two EXECUTEs), 1-parameter template x %d mixed values and 2-parameter template x %d^2 escape-relevant strings (%d history cases)",
 		len(single), len(modes), len(mix), len(lim), r.Pick(2, 4), len(modes), len(mix), len(esc), len(cases)-nBefore))
@@ -869,6 +908,7 @@ func main() {
 	r.Set("executed", nExecuted)
 	r.Set("refused", nRefused)
 	r.Set("histories_run", nHistories)
+	r.Set("executes_after_a_refused_execute", nAfterRefused)
 	if nExecuted == 0 {
 		ev.Fatalf("vacuous run: nothing executed")
 	}
